@@ -116,10 +116,26 @@ def main():
         hs = [h for h in hs if h in a.only.split(",")]
     known = load_known()
     results = {}
+    # The queueing-kernel harnesses report SO_SNDBUF = 64 (outside the property's "from 4 KiB up") to keep
+    # packets small, and are laid out for the 32-/24-byte fragments that gives on this code base.  If the
+    # tree's size functions say otherwise at 64 (or panic there), those harnesses do not apply: they are
+    # reported inconclusive instead of turning an artefact of the tiny buffer into a violation.
+    cfg_skip = None
+    if any("k_q" in HARNESSES[h]["features"] for h in hs):
+        try:
+            cfg = mq.small_config(64)
+            if cfg != (32, 24):
+                cfg_skip = f"harness configuration does not apply to this tree: fragment_size(64), first_fragment_size(64) = {cfg} (None = panics), the queueing-kernel harnesses are laid out for (32, 24)"
+        except Exception as e:  # translation failure
+            cfg_skip = f"could not evaluate the size functions at 64: {e}"
     # build the native replay binary up front (also proves the harness code runs against the real crate)
     nat_dev, nat_log = kanirun.build_native("dev")
     with cf.ThreadPoolExecutor(max_workers=a.jobs) as ex:
-        futs = {ex.submit(work, h, prop, tier, known): h for h in hs}
+        run_now = [h for h in hs if not (cfg_skip and "k_q" in HARNESSES[h]["features"])]
+        for h in hs:
+            if h not in run_now:
+                results[h] = dict(harness=h, verdict="INCONCLUSIVE", reason=cfg_skip, failed=[], covers={}, stats={})
+        futs = {ex.submit(work, h, prop, tier, known): h for h in run_now}
         for f in cf.as_completed(futs):
             h = futs[f]
             try:
